@@ -1,12 +1,14 @@
 (** Correspondence for C04: the real lints' diagnostics counted per code vs the models of Lints/Closed.v,
     the value-judged conditions evaluated on the lints' own output, and plain template verdicts for the
     lints that are not modelled. *)
-From Selene Require Export Corr.Common Lints.Closed Lints.ClosedSpec.
+From Selene Require Export Corr.Common Lints.Closed Lints.ClosedSpec Lints.Escape.
 
 Inductive c04case :=
 | CChunk (chunk : block) (div0 nan revloop empty_if empty_loop unbalanced mixed dupkeys paren tablecmp typecheck : nat)
 | CArgs (ps : list param) (a : args) (reported : bool)
-| CVerdict (lint : string) (expected : bool) (count : nat).
+| CVerdict (lint : string) (expected : bool) (count : nat)
+| CEscape (q : quote) (roblox : bool) (literal : list N) (impl : list (nat * nat))
+| CEscapePanic.
 
 (** L2: a zero spelled other than `0` next to a `/` *)
 Definition odd_zero (e : expr) : bool := denotes_zero e && negb (value_is_zero e).
@@ -37,6 +39,17 @@ Definition check_case (c : c04case) : N * N :=
       (bit (negb (Bool.eqb m reported)) 1 + bit (reported && negb spec) 4 + bit (negb reported && spec) 8, 0)%N
   | CVerdict _ expected cnt =>
       (bit (negb (Bool.eqb expected (Nat.ltb 0 cnt))) 16, 0)%N
+  | CEscape q rb lit impl =>
+      let m := bad_escapes q rb lit in
+      let same := (fix eqb (a b : list (nat * nat)) : bool :=
+                     match a, b with
+                     | [], [] => true
+                     | (x1, y1) :: r, (x2, y2) :: s => Nat.eqb x1 x2 && Nat.eqb y1 y2 && eqb r s
+                     | _, _ => false end) m impl in
+      (* reported ranges must lie inside the literal and be non-empty (theorem scan_in_bounds) *)
+      let inb := forallb (fun r => Nat.ltb (fst r) (snd r) && Nat.leb (snd r) (List.length lit)) impl in
+      (bit (negb same) 1 + bit (negb (scan_fits q rb lit 0)) 2 + bit (negb inb) 4, 0)%N
+  | CEscapePanic => (4, 0)%N
   end.
 
 Definition run := Common.run check_case.
